@@ -1158,6 +1158,25 @@ pub fn lexeme_corpus(thorough: bool) -> Vec<String> {
 
 pub fn text_corpus(r: &mut Rng, sz: &Sizes, thorough: bool) -> Vec<String> {
     let mut texts: Vec<String> = lexeme_corpus(thorough);
+    // DICTIONARY: every string literal of the library's source bare, as a JSON string, as a member name, as an
+    // element, and cut into a document in place of a value; strings / names / arrays sized at its integer literals
+    for w in crate::dict::words() {
+        let q = serde_json::to_string(&w).unwrap();
+        texts.push(w.clone());
+        texts.push(q.clone());
+        texts.push(format!("{{{q}:1}}"));
+        texts.push(format!("[{q},{q}]"));
+        texts.push(format!("[{w}]"));
+        texts.push(format!("{{\"a\":{w}}}"));
+        texts.push(format!("{{{q}:{q},\"k\":[{q}]}}"));
+    }
+    for n in crate::dict::sizes(2000) {
+        texts.push(format!("\"{}\"", "s".repeat(n)));
+        texts.push(format!("{{\"{}\":1}}", "k".repeat(n)));
+        texts.push(format!("[{}]", vec!["1"; n].join(",")));
+        texts.push(format!("{}", "9".repeat(n)));
+        texts.push(format!("{}1{}", " ".repeat(n), "\n".repeat(n)));
+    }
     // exhaustive short strings over a JSON alphabet
     let alpha: Vec<char> = "\"\\ua10-.e+ \n\r\t[]{},:trnl\u{e9}\u{1}/Ef".chars().collect();
     let maxlen = if thorough { 4 } else { 3 };
@@ -1728,6 +1747,12 @@ fn source_sets(r: &mut Rng, n: usize) -> Vec<Vec<String>> {
 }
 
 pub fn compile_ops(r: &mut Rng, n: usize, op: &str, out: &mut Vec<String>) {
+    // DICTIONARY: the source's string literals that can be file names, as collection names
+    for w in crate::dict::words() {
+        if !w.is_empty() && w.len() <= 24 && w.chars().all(|c| c.is_ascii_alphanumeric() || "._- ".contains(c)) && w != "." && w != ".." {
+            out.push(format!("{op}\t{}\t{}", crate::wire::hex(w.as_bytes()), crate::wire::hex(b"{\"a\":1}")));
+        }
+    }
     for (i, set) in source_sets(r, n).iter().enumerate() {
         let name = ["collection", "a.b", "x", "my-shapes", "v1.2.3", "a b", "\u{fc}n\u{ef}", ".hidden", "x..y", "UPPER.Case"][i % 10];
         let mut line = format!("{op}\t{}", crate::wire::hex(name.as_bytes()));
